@@ -276,7 +276,7 @@ def run(ctx):
                 '0, 1, some, all fits; with/without additional dictionaries; inputs as file, one object, list. a case = one writer call; non-trivial = >=2 selected fits')
     ctx.assume('printed precision: %10.3e -> 5e-4 relative, %10.3f -> 5e-4 absolute', 'selectors whose threshold equals an attained value are skipped (C05 don\'t-care)',
                'parameter values are position-encoding: (model+1)*10^column, so any row mix-up is visible at printed precision')
-    ctx.require_events('FitInfo.filter_table:post', 'text:write_parameters', 'text:write_parameter_ranges', 'text:extract_parameters', 'plot_params:observed', 'history:other-package-fitted-in-between')
+    ctx.require_events('FitInfo.filter_table:post', 'text:write_parameters', 'text:write_parameter_ranges', 'text:extract_parameters', 'plot_params:observed', 'history:other-package-fitted-in-between', 'listing:results-already-cut-down')
     ctx.require_regimes('additional:ints-and-floats', 'perm:identity', 'perm:reversed', 'perm:random', 'perm:name-sorted', 'selected:0', 'selected:1', 'selected:all', 'additional', 'additional:several', 'parameter:nan', 'extract:subset',
                         'input:file', 'input:object', 'input:list')
     n_pk = 8 if ctx.quick else 40
@@ -401,6 +401,29 @@ def run(ctx):
                     ctx.raised(exc, 'extract_parameters:raised:%s' % type(exc).__name__, 'extract_parameters raised: %r' % (exc,), wit)
                 ctx.case(('w', ip, isel, form, ctx.shard), nontrivial=any((c_ or 0) >= 2 for c_ in kept),
                          sample=dict(wit, kept=kept) if ip == 0 and isel == 2 else None)
+        # results that were already cut down (stored with an output selector, or keep() called on them) and are then listed
+        # with "all": "all" means all the fits the result still holds
+        if n_models >= 3:
+            pre = [x.copy() for x in infos]
+            for x in pre:
+                x.keep(('N', int(rng.integers(1, n_models))))
+            recs_pre = [probe.canon_info(x) for x in pre]
+            path_pre = os.path.join(d, 'fits_pre.out')
+            fo = FitInfoFile(path_pre, 'w')
+            for x in pre:
+                fo.write(x)
+            fo.close()
+            for form, inp in (('list', list(pre)), ('file', path_pre)):
+                wit = dict(perm=kind, selector=('A', 0), input=form, n_models=n_models, columns=colnames, names=names, results='already cut down with N')
+                out = os.path.join(d, 'pre_%s' % form)
+                try:
+                    write_parameters(inp, out + '.wp', select_format=('A', 0))
+                    check_write_parameters(ctx, open(out + '.wp').read(), recs_pre, ('A', 0), truth, {}, dict(wit, writer='write_parameters'))
+                    write_parameter_ranges(inp, out + '.wr', select_format=('A', 0))
+                    check_ranges(ctx, open(out + '.wr').read(), recs_pre, ('A', 0), truth, {}, dict(wit, writer='write_parameter_ranges'))
+                    ctx.event('listing:results-already-cut-down')
+                except Exception as exc:
+                    ctx.raised(exc, 'listing-of-cut-down-results:raised:%s' % type(exc).__name__, 'a listing of results that had been cut down raised: %r' % (exc,), wit)
         # the table handed to the parameter plots (renders; once per run in quick)
         if not did_plot or not ctx.quick:
             did_plot = True
